@@ -247,6 +247,19 @@ pub fn gen_plan(seed: u64, run: u64, cfg: Config, sys: &SysZones) -> Generated {
             menu.push(Some(format!(":{}", name)));
         }
     }
+    // unusually long values: a deep absolute path and a long relative name
+    if r.chance(1, 4) {
+        if let Some(k) = any_file(r, &file_zones) {
+            let deep = format!("/sim/{}/zone{}", vec!["a-rather-long-directory-name"; 9].join("/"), k);
+            files0.push((deep.clone(), k));
+            paths.push(deep.clone());
+            menu.push(Some(if r.chance(1, 2) { format!(":{}", deep) } else { deep }));
+            let long = format!("Sim/{}{}", "Very_Long_Zone_Name_".repeat(6), k);
+            let d = r.usize(4);
+            files0.push((format!("{}/{}", ZONEINFO_DIRS[d], long), k));
+            menu.push(Some(long));
+        }
+    }
     for z in &pool {
         if let Some(s) = &z.rule {
             menu.push(Some(s.clone()));
